@@ -100,6 +100,12 @@ CHECKS = {
         technique=XH + "; " + Z3RE + " (string theory on the converter's AST); " + SYMEX,
         ref="4 C08",
     ),
+    "C10": dict(
+        text="Bounded: the real get_evaluable_architecture end to end on a symbolic file system: fixed internal tree (r.m, r.handlers, r.sub.k, r.subx) with symbolic presence of up to 11 import lines naming nested externals (logging, logging.handlers, os.path), externals sharing a prefix / suffix with internal names (rx.util, handlers) and internal modules; 14 configurations (exclude / include x glob and regex external-exclusion tuples incl. '*handlers', 'r*', regex 'r') x module_path in {r, r/sub}. On every path: excluded -> no module outside module_path; included -> external E present with all ancestors and its import iff some present line names it and neither E nor an ancestor matches a pattern; internal modules and imports equal those of the default configuration scanned on the same path. One z3 query 'exists line subset: mismatch' per instance over the decision-tree summary.",
+        note="Trusted: SymFS stub (sampled assignments and every model materialised as real directories), ast.parse on concrete text, z3. Every line bit of an opened file is read when its text is assembled (exhaustive over line subsets).",
+        technique=SYMEX,
+        ref="4 C10",
+    ),
 }
 
 NOT_YET = {}
